@@ -97,6 +97,12 @@ func solveQuery(q *Query, dir string, timeoutS int, allSolvers bool) *Result {
 			}
 		}
 		res.TimeS = time.Since(start).Seconds()
+		if len(definite) == 0 && q.Focused != "" {
+			if fr := solveFocused(ctx, q, dir, timeoutS, true); fr != nil {
+				fr.TimeS = time.Since(start).Seconds()
+				return fr
+			}
+		}
 		if len(definite) == 0 {
 			res.Status = "unknown"
 			for _, x := range all {
@@ -121,6 +127,18 @@ func solveQuery(q *Query, dir string, timeoutS int, allSolvers bool) *Result {
 			res.Model = definite[0].out
 		}
 		return res
+	}
+	if q.Focused != "" {
+		// the same goal with the quantified hypotheses of other clause families hidden: fewer hypotheses, so unsat
+		// is conclusive; any other answer says nothing and the full query is decided next
+		ft := timeoutS
+		if ft > 2 {
+			ft = 2
+		}
+		if fr := solveFocused(ctx, q, dir, ft, false); fr != nil {
+			fr.TimeS = time.Since(start).Seconds()
+			return fr
+		}
 	}
 	// quick: z3-new first with a short budget, then race the rest
 	t1 := timeoutS
@@ -168,8 +186,46 @@ func solveQuery(q *Query, dir string, timeoutS int, allSolvers bool) *Result {
 			res.Status = "timeout"
 		}
 	}
+	if res.Status != "sat" && res.Status != "unsat" && q.Focused != "" && timeoutS > 2 {
+		if fr := solveFocused(ctx, q, dir, timeoutS, false); fr != nil {
+			fr.TimeS = time.Since(start).Seconds()
+			return fr
+		}
+	}
 	res.TimeS = time.Since(start).Seconds()
 	return res
+}
+
+// solveFocused races the solvers on the focused variant of a query; only unsat is reported (nil otherwise).
+// With all=true every solver runs to completion and a "sat" from any of them is ignored (it refutes nothing),
+// but two solvers must not disagree on the full query, which the caller has already established.
+func solveFocused(ctx context.Context, q *Query, dir string, timeoutS int, all bool) *Result {
+	file := filepath.Join(dir, sanitizeFile(q.Ob.Name)+".focus.smt2")
+	os.WriteFile(file, []byte(q.Focused), 0o644)
+	type r struct{ st, name string }
+	rctx, cancel := context.WithCancel(ctx)
+	defer cancel()
+	ch := make(chan r, len(solvers))
+	for _, s := range solvers {
+		go func(s solverSpec) {
+			st, _, _ := runSolver(rctx, s, file, timeoutS)
+			ch <- r{st, s.name}
+		}(s)
+	}
+	var names []string
+	for range solvers {
+		x := <-ch
+		if x.st == "unsat" {
+			names = append(names, x.name)
+			if !all {
+				break
+			}
+		}
+	}
+	if len(names) == 0 {
+		return nil
+	}
+	return &Result{Ob: q.Ob, File: file, Query: q, Status: "unsat", Solver: strings.Join(names, "+") + "(focused)"}
 }
 
 func firstLines(s string, n int) string {
